@@ -213,10 +213,16 @@ def fam_bufreq(rng):
     rs = rules.gen_ruleset(rng, p_trail=0.0)
     inter = rng.choice([True, False, None])
     cfg = rt.Config(backend=_backend(rng, cxx=True), topt=_compressed(rng) if inter is not False else rng.choice(TOPTS),
-                    interactive=inter, array=rng.random() < 0.2)
+                    interactive=inter, yymore=rng.random() < 0.6)      # (%pointer: the model has no yytext copy)
+
+    scripted = _ops_case(kinds=['less', 'more', 'more', 'return'] if cfg.yymore else ['less', 'return'])
 
     def gen(rng, rs, cfg):
-        c = _basic_case(rng, rs, cfg)
+        if rng.random() < 0.5:
+            # yyless()/yymore() scripts: the carried prefix moves with the partial token at a refill
+            c = scripted(rng, rs, cfg)
+        else:
+            c = _basic_case(rng, rs, cfg)
         if rng.random() < 0.3:
             c['srcs'] = [c['srcs'][0] * rng.choice([3, 20, 200])]      # long inputs: growth, YY_READ_BUF_SIZE cap
             c['bufsize'] = rng.choice([1, 2, 7, 64, 8192, 16384, 20000])
